@@ -19,15 +19,16 @@ The product of the fault plan is finite and is enumerated completely
 (`enum_programs`); seeded runs add random long sequences over shared interface
 objects.
 """
+import gc
 import itertools
 import random
 
-from ..prng import Streams
+from ..prng import Streams, h64
 from .base import standard_run, Stop
 
 MACHINE = 'adapt'
 CUSTOMS = ['none', 'ret_none', 'ret_val', 'ret_falsy', 'raise', 'super']
-CONFORMS = ['absent', 'none', 'value', 'raises', 'falsy', 'raises_attrerror', 'typeerror', 'attr_attrerror', 'attr_raises', 'unbound']
+CONFORMS = ['absent', 'none', 'value', 'raises', 'falsy', 'raises_attrerror', 'typeerror', 'attr_attrerror', 'attr_attrerror_sub', 'attr_raises', 'unbound']
 HOOKS = ['none', 'value', 'falsy', 'raise', 'pop_last', 'clear', 'append', 'remove_self', 'reenter']
 BLOCK = 1600
 ENUM_NOTE = ('complete product {custom __adapt__: 6} x {__conform__: 10} x {provided: 2} x {hook lists of length 0-3 over 9 hook '
@@ -97,6 +98,8 @@ def generate(seed, mode):
         c = {'custom': o.choice(CUSTOMS), 'conform': o.choice(CONFORMS), 'provided': o.random() < 0.3,
              'hooks': [o.choice(HOOKS) for _ in range(nh)], 'alt': o.random() < 0.5, 'sub': (lambda x: 'method' if x < 0.06 else 'method2' if x < 0.09 else 'method3' if x < 0.12 else x < 0.3)(o.random()), 'reg': None,
              'falsy_obj': o.random() < 0.25}
+        if h64(seed, 'churn', len(ops)) % 6 == 0:
+            c['churn'] = True
         if o.random() < 0.25:
             c['reg'] = [o.randint(0, nh), o.choice(['hit', 'miss', 'factory_none'])]
         ops.append(c)
@@ -135,8 +138,8 @@ def execute(program, ctx, mode):
     hook_vals = {}
     ifaces = {}
 
-    def mk_iface(custom):
-        if custom in ifaces:
+    def mk_iface(custom, fresh=False):
+        if custom in ifaces and not fresh:
             return ifaces[custom]
         if custom == 'none':
             class I(Interface):
@@ -178,8 +181,13 @@ def execute(program, ctx, mode):
             def helper3(self):
                 return 'helper3'
         K3.__name__ = 'K3A_' + custom
+        if fresh:
+            return (I, J, K, K2, K3)
         ifaces[custom] = (I, J, K, K2, K3)
         return ifaces[custom]
+
+    class AttrErrSub(AttributeError):
+        pass
 
     def mk_obj(conform, provided, I, falsy=False, cshape=None):
         ns = {}
@@ -188,10 +196,11 @@ def execute(program, ctx, mode):
             ns['__len__'] = lambda self: 0
         if conform == 'absent':
             pass
-        elif conform == 'attr_attrerror':
+        elif conform in ('attr_attrerror', 'attr_attrerror_sub'):
             def g(self):
                 calls.append('conform_get')
-                raise AttributeError('__conform__')
+                # (a subclass of AttributeError, as record- or proxy-style __getattr__ implementations raise, is a missing attribute too)
+                raise (AttrErrSub if conform == 'attr_attrerror_sub' else AttributeError)('__conform__')
             ns['__conform__'] = property(g)
         elif conform == 'attr_raises':
             def g(self):
@@ -229,7 +238,7 @@ def execute(program, ctx, mode):
             ob = cls            # the object is a class; its __conform__ is an instance method
         else:
             ob = cls()
-            if cshape == 'instattr' and conform not in ('absent', 'attr_attrerror', 'attr_raises'):
+            if cshape == 'instattr' and conform not in ('absent', 'attr_attrerror', 'attr_attrerror_sub', 'attr_raises'):
                 ob.__conform__ = lambda iface: c(ob, iface)
         if provided:
             directlyProvides(ob, I)
@@ -280,7 +289,7 @@ def execute(program, ctx, mode):
         """-> (outcome, expected call log).  hooks: the actual stub list (copied; mutations are simulated)"""
         log = []
         conform = case['conform']
-        if conform == 'attr_attrerror':
+        if conform in ('attr_attrerror', 'attr_attrerror_sub'):
             log.append('conform_get')
         elif conform == 'attr_raises':
             log.append('conform_get')
@@ -397,7 +406,22 @@ def execute(program, ctx, mode):
         for step, case in enumerate(program['ops']):
             ctx.step = step
             ctx.nops += 1
-            I0, J0, K0, K20, K30 = mk_iface(case['custom'])
+            if case.get('churn'):
+                # interface churn: a throw-away interface with an interface method of its own is adapted to, dropped and
+                # collected; the interfaces of this case are then created afresh (whatever is remembered per interface *type*
+                # must not survive the type: the new types may well get the freed addresses)
+                class Tmp(Interface):
+                    @interfacemethod
+                    def helper(self):
+                        return None
+                del adapter_hooks[:]          # (the hooks of the previous case are still installed)
+                Tmp(object(), None)
+                del Tmp
+                gc.collect()
+                ctx.fault('gc-after-dropping-an-interface')
+                I0, J0, K0, K20, K30 = mk_iface(case['custom'], fresh=True)
+            else:
+                I0, J0, K0, K20, K30 = mk_iface(case['custom'])
             I = {'method': K0, 'method2': K20, 'method3': K30}.get(case.get('sub')) or (J0 if case.get('sub') else I0)
             hook_vals.clear()
             ob = mk_obj(case['conform'], case['provided'], I, case.get('falsy_obj', False), case.get('cshape'))
